@@ -563,15 +563,30 @@ def run_async_case(case: dict) -> Outcome:
 # ----------------------------------------------------------------------------------------------
 # standalone layer (real threads, real loopback sockets)
 
-OP_WATCHDOG_S = 30.0
+OP_WATCHDOG_S = float(os.environ.get("VERIF_C18_WATCHDOG_S") or 30.0)  # the override only exists to make sensitivity runs affordable
 
 
 @st.composite
 def st_standalone_case(draw: st.DrawFn, tier: str) -> dict:
-    n_tasks = draw(st.integers(2, 3))
-    n_ops = draw(st.integers(2, 6))
+    """real threads: the offsets are real sleeps in milliseconds, so the schedule is only aimed, not owned.  Most histories
+    start with a race skeleton aimed at the start-up window (widened by a slow event-loop factory: the locks are held until
+    the portal exists) or at the tear-down window of a serve_forever."""
+    loop_setup_ms = draw(st.sampled_from([0, 2, 5, 10]))
+    shape = draw(st.sampled_from(["free", "startup-race", "startup-race", "teardown-race"]))
     ops: list[dict] = []
-    for _ in range(n_ops):
+    if shape == "startup-race":
+        ops.append({"op": "serve", "task": 0, "delay_ms": 0})
+        ops.append({"op": draw(st.sampled_from(["shutdown", "close", "serve", "shutdown", "close"])), "task": 1, "delay_ms": draw(st.integers(0, loop_setup_ms + 4))})
+        if draw(st.booleans()):
+            ops.append({"op": draw(st.sampled_from(["shutdown", "close", "serve"])), "task": 2, "delay_ms": draw(st.integers(0, loop_setup_ms + 4))})
+    elif shape == "teardown-race":
+        a = loop_setup_ms + draw(st.integers(8, 20))
+        ops.append({"op": "serve", "task": 0, "delay_ms": 0})
+        ops.append({"op": draw(st.sampled_from(["shutdown", "shutdown", "close"])), "task": 1, "delay_ms": a})
+        ops.append({"op": draw(st.sampled_from(["serve", "close", "shutdown", "serve"])), "task": 2, "delay_ms": a + draw(st.integers(0, 3))})
+    n_tasks = max([o["task"] for o in ops] + [draw(st.integers(1, 2))]) + 1
+    n_ops = draw(st.integers(max(2, len(ops)), 6))
+    while len(ops) < n_ops:
         op = draw(st.sampled_from(["serve"] * 5 + ["shutdown"] * 5 + ["close"] * 3 + ["connect"]))
         ops.append({"op": op, "task": draw(st.integers(0, n_tasks - 1)), "delay_ms": draw(st.sampled_from([0, 0, 1, 2, 3, 5, 8, 12, 20]))})
     if not any(o["op"] == "serve" for o in ops):
@@ -579,7 +594,7 @@ def st_standalone_case(draw: st.DrawFn, tier: str) -> dict:
     case = {
         "proto": draw(st.sampled_from(["tcp", "udp"])),
         "ops": ops,
-        "loop_setup_ms": draw(st.sampled_from([0, 2, 5, 10])),
+        "loop_setup_ms": loop_setup_ms,
         "service_init_ms": draw(st.sampled_from([0, 0, 3, 8])),
     }
     if EXCLUDE_D8 and case["service_init_ms"]:
@@ -828,15 +843,26 @@ def _standalone_once(case: dict) -> dict:
     return info
 
 
-_HANG_VERDICTS: dict[str, dict] = {}
+_VERDICTS: dict[str, Violation] = {}
 
 
 def run_standalone_case(case: dict) -> Outcome:
-    logging.disable(logging.CRITICAL)
+    """The schedule is not owned, so the same case can behave differently from run to run.  The oracle is sound under every
+    interleaving, hence one observed violation is a violation: it is remembered for the case, so that the search engine,
+    which re-submits a failing case to confirm it, sees a consistent verdict (and a confirmed hang, which costs three
+    watchdog periods, is not paid for again).  The observed history is part of the violation details."""
     digest = case_digest(case)
-    if digest in _HANG_VERDICTS:  # a confirmed hang costs 3 x 30 s: do not pay again when the engine re-submits the same case
-        last = _HANG_VERDICTS[digest]
-        raise Violation("hang", last["message"], proto=case["proto"], history=last["history"])
+    if digest in _VERDICTS:
+        raise _VERDICTS[digest]
+    try:
+        return _run_standalone_case(case)
+    except Violation as v:
+        _VERDICTS[digest] = v
+        raise
+
+
+def _run_standalone_case(case: dict) -> Outcome:
+    logging.disable(logging.CRITICAL)
     hangs: list[dict] = []
     info: dict | None = None
     for _attempt in range(3):
@@ -847,7 +873,6 @@ def run_standalone_case(case: dict) -> Outcome:
             hangs.append(h.args[0])
     if info is None:
         message = f"an operation did not return within {OP_WATCHDOG_S}s in three consecutive runs: {hangs[-1]['hang']}"
-        _HANG_VERDICTS[digest] = {"message": message, "history": hangs[-1]["history"]}
         raise Violation("hang", message, proto=case["proto"], history=hangs[-1]["history"])
     if hangs:
         raise Inconclusive(f"watchdog expired in {len(hangs)} run(s) but not in a re-run: {hangs[0]['hang']}")
